@@ -12,6 +12,7 @@ CFG = {'module': 'Dnp3.Props.C03',
               'event_ids_increase',
               'event_is_recorded_live_in_order',
               'class_report_in_configured_variation',
+              'complete_class_poll_carries_every_event',
               'event_only_for_class_points',
               'kept_until_released_or_discarded',
               'overflow_discards_oldest_of_type',
